@@ -442,6 +442,33 @@ template <class SH, class DH> struct pair_check {
             fill_junk(dh, a);
             gil::static_transform(s, s2, d, tr2{&log, SH::is_float});
             check_hot("static_transform2-pairing", log, 2, c);
+            // the other const / non-const overloads of the two- and three-argument algorithms:
+            // named copies (values or proxies) bind as non-const lvalues
+            {
+                auto sl = sh.cref(); auto s2l = sh2.cref();
+                log.clear(); fill_junk(dh, a);
+                gil::static_transform(sl, s2l, d, tr2{&log, SH::is_float});
+                check_hot("static_transform2-pairing-lvalue-lvalue", log, 2, c);
+                log.clear(); fill_junk(dh, a);
+                gil::static_transform(sl, s2, d, tr2{&log, SH::is_float});
+                check_hot("static_transform2-pairing-lvalue-const", log, 2, c);
+                log.clear(); fill_junk(dh, a);
+                gil::static_transform(s, s2l, d, tr2{&log, SH::is_float});
+                check_hot("static_transform2-pairing-const-lvalue", log, 2, c);
+                fill(dh, a);
+                log.clear();
+                gil::static_for_each(sl, d, rec2{&log});
+                check_hot("static_for_each2-lvalue", log, 2, c);
+                log.clear();
+                gil::static_for_each(sl, d, s2l, rec3{&log});
+                check_hot("static_for_each3-lvalue-lvalue", log, 3, c);
+                log.clear();
+                gil::static_for_each(s, d, s2l, rec3{&log});
+                check_hot("static_for_each3-const-lvalue", log, 3, c);
+                log.clear();
+                gil::static_for_each(sl, d, s2, rec3{&log});
+                check_hot("static_for_each3-lvalue-const", log, 3, c);
+            }
         }
     }
     void check_hot(const char* oracle, visit_log& log, int arity, int c) {
